@@ -36,13 +36,23 @@ def judge(case):
     out = []
     try:
         pg = position_grid(o, t, cartesian=True)
+        getters = {"volumes": lambda: np.asarray(pg.get_all_position_volumes(), dtype=float),
+                   "adjacency": pg.get_adjacency_of_position_grid, "borders": pg.get_borders_of_position_grid,
+                   "distances": pg.get_distances_of_position_grid}
+        import itertools
+        from vlib.core import digest
+        orders = list(itertools.permutations(sorted(getters)))
+        order = orders[int(digest([o, t]), 16) % len(orders)]   # a getter order that varies from grid to grid
         with quiet():
-            vol = np.asarray(pg.get_all_position_volumes(), dtype=float)
-            adj_sp = pg.get_adjacency_of_position_grid()
-            bor_sp = pg.get_borders_of_position_grid()
-            dis_sp = pg.get_distances_of_position_grid()
+            first = {name: getters[name]() for name in order}
+            vol, adj_sp, bor_sp, dis_sp = first["volumes"], first["adjacency"], first["borders"], first["distances"]
             pts = np.asarray(pg.get_position_grid_as_array(), dtype=float)
             dirs = np.asarray(pg.get_o_grid().get_grid_as_array(), dtype=float)
+            again = {name: getters[name]() for name in reversed(order)}
+        for name in order:
+            a, b2 = (dense(first[name]), dense(again[name])) if name != "volumes" else (first[name], again[name])
+            if a.shape != b2.shape or not np.array_equal(np.asarray(a, dtype=float), np.asarray(b2, dtype=float)):
+                return [("history", f"{o} {t}: {name} differ between the first and a second query on the same grid (order {list(order)})")], {}
     except Exception as e:
         return [("exception", f"{o} {t}: {type(e).__name__}: {e}")], {}
     r = radii_of(t)
